@@ -292,7 +292,7 @@ impl Gen {
       cap: 0,
       minseg: r.pick(&[0, 1, 8, 20, 48]),
       maxalign: r.pick(&[8, 16, 64]),
-      retries: r.pick(&[1, 2, 5]),
+      retries: r.pick(&[0, 1, 2, 5]),
       magic: r.below(65536) as u16,
       offset: 0,
     };
